@@ -250,12 +250,20 @@ func (e *Environment) Get(name string) (Object, bool) {
 	}
 	obj, ok := e.store[name]
 	if ok {
-		// using references to non constant (extensions are constants) implies uncacheable.
-		if r, ok := obj.(Reference); ok && !Constant(r.Name) && r.ObjValue().Type() != FUNC {
-			e.getMiss++
-			log.Debugf("get(%s) GETMISS %d", name, e.getMiss)
+		if r, isRef := obj.(Reference); isRef {
+			if _, alive := r.RefEnv.store[r.Name]; !alive {
+				// The referenced variable was deleted meanwhile: forget the stale reference and look the name up again.
+				delete(e.store, name)
+				ok = false
+			} else if !Constant(r.Name) && r.ObjValue().Type() != FUNC {
+				// using references to non constant (extensions are constants) implies uncacheable.
+				e.getMiss++
+				log.Debugf("get(%s) GETMISS %d", name, e.getMiss)
+			}
 		}
-		return obj, true
+		if ok {
+			return obj, true
+		}
 	}
 	if e.outer == nil {
 		return nil, false
